@@ -6,7 +6,7 @@
                                           suite (must pass), run the demo (must fail), revert, run the demo (must pass)
 """
 import os, re, subprocess, sys, shutil, json
-V = "/verif"
+V = os.environ.get("VERIF_DIR", "/verif")
 R = os.environ.get("SEED_ROUND", "seed")  # scratch prefix: /tmp/<R>_<ID> and /tmp/<R>_<ID>_out
 def sh(cmd, cwd=None, env=None, timeout=3600):
     e = dict(os.environ); e["CARGO_NET_OFFLINE"] = "true"
@@ -61,6 +61,8 @@ def confirm(pid, x):
         feats = ["--features", mf.group(1).replace(" ", "")]
     if "--all-features" in head: feats = ["--all-features"]
     if "--no-default-features" in head: feats = ["--no-default-features"]
+    if os.environ.get("SEED_FEATS") is not None:
+        feats = os.environ["SEED_FEATS"].split()
     name = "seed_%s_%s_demo" % (pid.lower(), x.lower())
     sh("git checkout -- . && git clean -fdq -e target", cwd=wt)
     rc, out = sh(["git", "apply", patch], cwd=wt)
